@@ -57,7 +57,7 @@ K == [typeKey |-> st.cfg.typeKey, zoneKey |-> st.cfg.zoneKey, ctKey |-> st.cfg.c
 \* which environment steps end a claim's freshness / count as tampering with it
 SpecEdits == {"addReq", "delReq", "delReqKey", "setTaints", "setStartupTaints", "taint+", "taint-", "startupTaint+", "tlabel", "tannotation",
               "expireAfter", "tgp"}
-ClaimTamper == {"label", "hashAnn", "verAnn", "dropAnn"}
+ClaimTamper == {"label", "hashAnn", "verAnn", "dropAnn", "copyPoolHash"}
 StepFresh(n) ==
     LET f == Get(st.fresh, n, FALSE) IN
     CASE Ev.a = "EditPool" /\ Ev.what \in SpecEdits -> FALSE
